@@ -17,6 +17,7 @@ def run(rep, prog, tier):
     r2(rep, prog)
     r3(rep, prog)
     r4(rep, prog)
+    r5(rep, prog)
 
 
 def r4(rep, prog):
@@ -47,6 +48,26 @@ def r4(rep, prog):
                          "(an unstable sort keeps no order between equal keys)" % (fid, f2 or f), site=site(b, bi))
     rep.check(len(reach) >= 5, R, "serializer bodies examined", "%d bodies, %d calls, no order-destroying primitive" % (len(reach), n),
               "cannot establish: only %d bodies reachable from serialize_doc" % len(reach), site=prog.bodies[entry].span)
+
+
+
+def r5(rep, prog):
+    """the dedicated compressor thread's io::Result reaches whoever closes the store"""
+    from .. import errfate
+    R = "C09-R5"
+    rep.rule(R, "the doc store's compressor thread cannot fail silently: every JoinHandle<io::Result<()>>::join in store::store_compressor takes the thread's own Result out of join()'s Ok payload and returns / `?`-propagates it (a close() that only reports panics publishes a .store file whose tail — last blocks, skip index, footer — was never written)")
+    n = 0
+    for fid in sorted(prog.bodies):
+        if not fid.startswith("tantivy::store::store_compressor::"):
+            continue
+        b = prog.bodies[fid]
+        for bi, fates in errfate.join_inner_fates(prog, b):
+            n += 1
+            bad = sorted(x for x in fates if x not in ("checked", "returned", "passed"))
+            rep.check(not bad, R, "%s propagates the compressor thread's Result" % short(fid), "fate: %s" % sorted(fates),
+                      "`%s` joins the compressor thread but its io::Result is %s: an I/O error while the thread wrote the tail of the .store file is lost and the store is published truncated" % (fid, bad), site=site(b, bi))
+    rep.floor(R, "joins of the compressor thread", n, 1)
+
 
 
 def r3(rep, prog):
